@@ -568,6 +568,13 @@ impl Property for C01 {
         if rng.chance(25) {
             gen::reader_template(rng, &mut sc.cmds);
         }
+        if rng.chance(4) {
+            gen::magic_output(rng, &mut sc.cmds);
+        }
+        if rng.chance(8) {
+            sc.cmds = gen::limb_grid(rng);
+            sc.set_knob("arith", 2);
+        }
         if rng.chance(6) {
             // values that are not scalar values, astral characters
             let v = *rng.pick(&[0xD800usize, 0xDFFE, 0x110000, 0x1F600, 0x10FFFF, 0xFFFF, 0x10000, 0xD7FF, 0xE000, 0xDFFF, 0x10FFFE, 0x7F, 0x80, 0x7FF, 0x800]);
@@ -610,7 +617,7 @@ impl Property for C01 {
             Tier::Quick => *rng.pick(&[60u64, 200, 400]),
             Tier::Thorough => *rng.pick(&[60u64, 400, 400, 2000, 5000]),
         };
-        sc.cap_bits = if rng.chance(2) { 1024 } else if rng.chance(30) || sc.knob("arith") == 1 { 192 } else { 96 };
+        sc.cap_bits = if sc.knob("arith") == 2 { 640 } else if rng.chance(2) { 1024 } else if rng.chance(30) || sc.knob("arith") == 1 { 192 } else { 96 };
         if sc.cap_bits > 192 {
             // BigNum division is bit-by-bit: ~0.2 s per operation at 700 bits
             sc.budget = sc.budget.min(60);
